@@ -54,6 +54,8 @@ def run_call(c, variant):
     ev.update(before=[], after=[], valid=True, variant=variant)
     op = c["op"]
     x = base.encode_batch(c["x"], A, torch.float64)
+    if op in ("apply_pairwise", "apply_product"):          # X in the library's one-hot dtypes; the extra arguments stay float64
+        x = x.type([torch.float64, torch.int8, torch.float32][variant % 3])
     model = PosCoded(c["T"], c["out"])
     seed = 1000 + variant
 
@@ -231,14 +233,19 @@ def gen_call(rng):
     c = dict(op=op, x=x, x0=[], args0=[], args1=[], mo=[], mos=[], start=0, end=0, n=0, grid=[], ann=[], shuf=[], out=out,
              T=rng.randint(1, 3), bs=rng.choice([1, 2, 3, 5, 7, 32]))
 
-    def argv(k):
+    def argv(k, small=False):
+        r = 1.0 if small else rng.random()
+        if r < 0.2:          # beyond 8 / 16 bits: the arguments must reach func with their own dtype, not X's
+            return [rng.randint(-20000, 20000) for _ in range(k)]
+        if r < 0.3:          # beyond float32's 24 bits
+            return [16777217 + rng.randint(0, 50) for _ in range(k)]
         return [rng.randint(-20, 20) for _ in range(k)]
     na = rng.randint(0, 2)
     if op in ("marginalize", "ablate", "space"):
         if na >= 1:
             c["args0"] = argv(n)
         if na == 2:
-            c["args1"] = argv(n)
+            c["args1"] = argv(n, small=True)
     if op == "marginalize":
         m = rng.randint(1, 4)
         k = rng.choice([1, n])
@@ -273,11 +280,11 @@ def gen_call(rng):
         k0 = rng.randint(1, 4)
         c["args0"] = argv(k0)
         if rng.random() < 0.5:
-            c["args1"] = argv(k0)
+            c["args1"] = argv(k0, small=True)
     else:
         c["args0"] = argv(rng.randint(1, 4))
         if rng.random() < 0.6:
-            c["args1"] = argv(rng.randint(1, 4))
+            c["args1"] = argv(rng.randint(1, 4), small=True)
     return c
 
 
